@@ -76,6 +76,11 @@ def cases(tier, seed):
             continue
         for m, sd in itertools.product(mags, sds):
             out.append(dict(cls=cls, var=var, dev=d, mag=m, output=outp, rng=sd))
+    if quick:
+        # a nested output path (directories that do not exist yet) for one member of the classes that fail latest
+        for cls, var in (("currents_const", "one_extra"), ("currents_callable", "late"), ("empty_terminal", "inside"), ("seed", "geometry"), ("seed", "extra_hole"),
+                         ("history", "terminal_moved_inside"), ("history", "terminals_reassigned"), ("epsilon", "time_dependent"), ("vector_potential", "n1")):
+            out.append(dict(cls=cls, var=var, dev="G1", mag=1.0, output="sub/dir/out.h5", rng=0))
     for d in devs:
         for outp in outputs:
             for var in ("ok", "callable_balanced", "eps_exactly_one", "options_boundary", "same_device_seed", "rounding_level_imbalance"):
